@@ -3813,6 +3813,11 @@ impl<'a> Parser<'a> {
             | TokenKind::Is
             | TokenKind::Asserts => self.parse_type_reference_with_suffix(start),
 
+            // readonly modifier on array/tuple types: readonly T[] (no runtime meaning)
+            TokenKind::Readonly => {
+                self.advance();
+                self.parse_primary_type()
+            }
 
             // Object type or mapped type
             TokenKind::LBrace => {
